@@ -85,7 +85,7 @@ def select_for_miri(g: RunGroup, tier: str, seed: int):
             k = seed % max(1, len(small) - 3) if len(small) > 4 else 0
             picks.extend(small[k:k + 4])
             picks.extend(lst[-2:] if len(lst) > 6 else [])
-        picks = list({c.id: c for c in picks}.values())[:1100]
+        picks = list({c.id: c for c in picks}.values())[:640]
         return sorted(picks, key=lambda c: -len(c.decl.variants))
     # quick: the cheapest case of every distinct unsafe-site signature, rotated by the seed
     by_sig = {}
@@ -119,12 +119,17 @@ def run(tier: str, seed: int) -> int:
             dv, unbuildable = confirm_dropped(g, prop, lambda c: True)
             violations += dv
             # (a) native, debug UB checks, whole corpus
+            t1 = time.time()
             reps, aborts = g.run(["C02"], tier, mode="native")
+            phase = {"native_s": round(time.time() - t1, 1)}
             # (b) Miri
             miri_s = g.build_miri()
+            t1 = time.time()
             sel = select_for_miri(g, tier, seed)
             mreps, maborts = g.run(["C02"], "miri-quick" if tier == "quick" else "miri-thorough",
                                    mode="miri", only=[c.id for c in sel], timeout=7200)
+            phase["miri_run_s"] = round(time.time() - t1, 1)
+            t1 = time.time()
             # (c) valgrind memcheck on a release build (debug checks off): measured ~25x native, so it
             # sees far more cases than Miri; it cannot see invalid enum values, but it does see the use
             # of an unwritten MaybeUninit index and invalid reads
@@ -134,6 +139,7 @@ def run(tier: str, seed: int) -> int:
             vreps, vaborts = g.run(["C02"], "miri-thorough" if tier == "quick" else "quick", mode="valgrind",
                                    only=[c.id for c in vsel], timeout=7200,
                                    sets=None if tier == "quick" else {"exhaustive_bits": 8, "rand_hist": 40, "pairs_all_n": 16, "pairs_sample": 100})
+        phase["release_build_and_valgrind_s"] = round(time.time() - t1, 1)
         sites = {"native": {}, "miri": {}, "valgrind": {}}
         evaluations = 0
         reached_cases = set()
@@ -192,6 +198,7 @@ def run(tier: str, seed: int) -> int:
             "unsafe_site_reach": sites,
             "miri_processes": min(16, len(sel)),
             "miri_build_s": round(miri_s, 1),
+            "phase_seconds": phase,
             "functional_mismatches_left_to_their_own_properties": functional_noted,
             "unbuildable_cases": sorted(set(unbuildable) | set(g.dropped)),
         }
